@@ -297,7 +297,7 @@ def thread_bools(body):
                     nxt = t["target"]
             if nxt is None or nst + len(cb["stmts"]) > MAX_STMTS:
                 break
-            if resolved and not (t["t"] == "switch" and nxt is not None and cur_resolves) and not all(st.get("s") == "other" or (st.get("s") == "assign" and (st["rv"]["r"] in ("use", "discr") or (st["rv"]["r"] == "aggregate" and st["rv"].get("path") == "std::result::Result" and st["rv"].get("variant") == "Err"))) for st in cb["stmts"]):
+            if resolved and not (t["t"] == "switch" and nxt is not None and cur_resolves) and not all(st.get("s") == "other" or (st.get("s") == "assign" and (st["rv"]["r"] in ("use", "discr") or (st["rv"]["r"] == "aggregate" and (st["rv"].get("ak") == "closure" or (st["rv"].get("path") == "std::result::Result" and st["rv"].get("variant") == "Err"))))) for st in cb["stmts"]):
                 break  # past the re-test only pure value shuffling (the `?` plumbing of an error exit, an `Err(e)` re-wrap) is duplicated
             # pass the block
             seen.add(cur)
